@@ -107,7 +107,7 @@ def contains (s : Store) (k : Key) : ReadResult Nat := (s.getLatestEntry k none)
     a stable sort, does element by element) -/
 def insertDesc (x : Rec) : List Rec → List Rec
   | [] => [x]
-  | y :: ys => if x.ts > y.ts then x :: y :: ys else y :: insertDesc x ys
+  | y :: ys => if x.ts ≥ y.ts then x :: y :: ys else y :: insertDesc x ys
 
 /-- stable sort by timestamp descending -/
 def sortDesc (l : List Rec) : List Rec := l.foldr insertDesc []
@@ -193,14 +193,14 @@ def lastPresent : List (Option Blob) → Option (Nat × Blob)
       | some b => some (0, b)
       | none => none
 
-/-- `Inner::restore_active_blob` -/
+/-- `Inner::restore_active_blob` (the restored blob loads its index: it must accept pushes) -/
 def restoreActive (s : Store) : Except ErrKind Store :=
   match s.active with
   | some _ => .error .activeBlobExists
   | none =>
     match lastPresent s.slots with
     | none => .error .uninitialized
-    | some (i, b) => .ok { s with active := some b, slots := s.slots.set i none }
+    | some (i, b) => .ok { s with active := some { b with onDisk := false }, slots := s.slots.set i none }
 
 /-- `Safe::replace_active_blob` with a fresh blob (`ForceUpdateActiveBlob`, `TryUpdateActiveBlob`) -/
 def replaceActive (s : Store) : Store :=
